@@ -71,6 +71,9 @@ type World struct {
 	Entry         string            `json:"entry"`                   // cwd | rundir
 	LineNorm      bool              `json:"line_norm,omitempty"`
 	PKI           PKISpec           `json:"pki"`
+	// LinksInProduct: the link directory IS the verification directory (the links lie next to the final
+	// product, as in the in-toto demo); everything in the link directory is then recorded by inspections
+	LinksInProduct bool `json:"links_in_product,omitempty"`
 }
 
 // Built is a materialised world.
@@ -314,7 +317,7 @@ func Materialise(w World, root string) (*Built, error) {
 		}
 	}
 	// what an isolated verifier process needs (cmd/worker "verify")
-	vf := VerifyFile{Entry: w.Entry, LineNorm: w.LineNorm, Keys: b.VerifierKeyMap(), Params: w.Params}
+	vf := VerifyFile{Entry: w.Entry, LineNorm: w.LineNorm, Keys: b.VerifierKeyMap(), Params: w.Params, LinksInProduct: w.LinksInProduct}
 	for _, p := range b.IntermediatePEMs() {
 		vf.Intermediates = append(vf.Intermediates, string(p))
 	}
@@ -403,6 +406,10 @@ func copyTree(src, dst string) error {
 				return err
 			}
 			return os.Symlink(l, target)
+		case info.Mode()&os.ModeNamedPipe != 0:
+			return mkfifo(target)
+		case !info.Mode().IsRegular():
+			return nil
 		default:
 			data, err := os.ReadFile(p)
 			if err != nil {
@@ -472,6 +479,14 @@ func (b *Built) VerifyWith(layout intoto.Metadata, keys map[string]intoto.Key, p
 			return
 		}
 	}
+	linkDir := b.LinkDir
+	if b.W.LinksInProduct {
+		if err := copyTree(b.LinkDir, prod); err != nil {
+			out.Err = fmt.Errorf("harness: copy links next to the product: %v", err)
+			return
+		}
+		linkDir = prod
+	}
 	out.RunDir = prod
 	old, _ := os.Getwd()
 	if err := os.Chdir(cwd); err != nil {
@@ -503,9 +518,9 @@ func (b *Built) VerifyWith(layout intoto.Metadata, keys map[string]intoto.Key, p
 			}
 		}()
 		if b.W.Entry == "rundir" {
-			out.Summary, out.Err = intoto.InTotoVerifyWithDirectory(layout, keys, b.LinkDir, prod, b.StepName, params, b.IntermediatePEMs(), b.W.LineNorm)
+			out.Summary, out.Err = intoto.InTotoVerifyWithDirectory(layout, keys, linkDir, prod, b.StepName, params, b.IntermediatePEMs(), b.W.LineNorm)
 		} else {
-			out.Summary, out.Err = intoto.InTotoVerify(layout, keys, b.LinkDir, b.StepName, params, b.IntermediatePEMs(), b.W.LineNorm)
+			out.Summary, out.Err = intoto.InTotoVerify(layout, keys, linkDir, b.StepName, params, b.IntermediatePEMs(), b.W.LineNorm)
 		}
 	}()
 	log := readLog(b.LogPath)
@@ -557,6 +572,11 @@ func MustJSON(v any) string {
 }
 
 
+func dirExists(p string) bool {
+	fi, err := os.Stat(p)
+	return err == nil && fi.IsDir()
+}
+
 // VerifyFile is what Materialise leaves for an isolated verifier process.
 type VerifyFile struct {
 	Entry         string                `json:"entry"`
@@ -564,6 +584,7 @@ type VerifyFile struct {
 	Keys          map[string]intoto.Key `json:"keys"`
 	Params        map[string]string     `json:"params"`
 	Intermediates []string              `json:"intermediates"`
+	LinksInProduct bool                 `json:"links_in_product"`
 }
 
 // VerifyResult is the isolated verifier's report.
@@ -603,6 +624,19 @@ func VerifyIsolated(root string) VerifyResult {
 	if vf.Entry == "rundir" {
 		cwd = filepath.Join(runRoot, "cwd")
 		_ = os.MkdirAll(cwd, 0o755)
+	}
+	if extra := filepath.Join(root, "cwd-extra"); dirExists(extra) {
+		if err := copyTree(extra, cwd); err != nil {
+			res.Err = "harness: " + err.Error()
+			return res
+		}
+	}
+	if vf.LinksInProduct {
+		if err := copyTree(b.LinkDir, prod); err != nil {
+			res.Err = "harness: " + err.Error()
+			return res
+		}
+		b.LinkDir = prod
 	}
 	if err := os.Chdir(cwd); err != nil {
 		res.Err = "harness: " + err.Error()
